@@ -14,6 +14,7 @@ import (
 	"strings"
 
 	"github.com/antlr4-go/antlr/v4"
+	"github.com/hashicorp/go-multierror"
 	openfgav1 "github.com/openfga/api/proto/openfga/v1"
 
 	"github.com/openfga/language/pkg/go/zzverif"
@@ -576,4 +577,30 @@ func VerifC08_ListenerRecovery() {
 	l, _, _ := verifParseDoc(d)
 	_ = l
 	zzverif.Reach("walked")
+}
+
+// VerifC16_ErrorTexts: the texts of the error types carry the position and the message they were given (the
+// position is what callers print), and the multi-error text counts its items.
+func VerifC16_ErrorTexts() {
+	line := []int{0, 7, 120}[zzverif.Choose("line", 3)]
+	col := []int{0, 3, 4096}[zzverif.Choose("column", 3)]
+	se := &OpenFgaDslSyntaxError{line: line, column: col, msg: "m"}
+	zzverif.Assert(se.Error() == fmt.Sprintf("syntax error at line=%d, column=%d: m", line, col), "syntax-error-text-carries-line-and-column")
+	me := &ModuleTransformationSingleError{Msg: "m"}
+	me.Line.Start, me.Column.Start = line, col
+	zzverif.Assert(me.Error() == fmt.Sprintf("transformation error at line=%d, column=%d: m", line, col), "merge-error-text-carries-line-and-column")
+	fe := &ModFileValidationError{Msg: "m", Line: line, Column: col}
+	zzverif.Assert(fe.Error() == fmt.Sprintf("validation error at line=%d, column=%d: m", line, col), "mod-file-error-text-carries-line-and-column")
+	n := 1 + zzverif.Choose("errors", 2)
+	var items []error
+	for i := 0; i < n; i++ {
+		items = append(items, se)
+	}
+	multi := (*OpenFgaDslSyntaxMultipleError)(&multierror.Error{Errors: items})
+	zzverif.Assert(strings.HasPrefix(multi.Error(), fmt.Sprintf("%d error", n)) && strings.Count(multi.Error(), "syntax error at") == n, "multi-error-text-lists-every-item")
+	mm := (*ModuleValidationMultipleError)(&multierror.Error{Errors: []error{me}})
+	zzverif.Assert(strings.Contains(mm.Error(), me.Error()), "multi-error-text-lists-every-item")
+	fm := (*ModFileValidationMultipleError)(&multierror.Error{Errors: []error{fe}})
+	zzverif.Assert(strings.Contains(fm.Error(), "m"), "multi-error-text-lists-every-item")
+	zzverif.Reach("texts")
 }
